@@ -270,6 +270,8 @@ def check_encode(rule: dict) -> dict:
     # 1. the strict RFC reading.  2. when the rule has an IPv6 offset and that reading does not give the written prefixes:
     # the layout of the early flow-spec-v6 drafts, to give the deviation its name.  3. when the reader loses its place:
     # both again, told how many tests each component was given, so that compare_components can name the wrong field
+    want_types = [t for t, _ in expected]
+    best = -1
     for use_counts in (None, counts):
         for candidate in ('rfc8956', 'whole-prefix') if offset_prefixes else ('rfc8956',):
             try:
@@ -278,9 +280,11 @@ def check_encode(rule: dict) -> dict:
                 if strict_error is None:
                     strict_error = exc
                 continue
-            if decoded is None or (not prefixes_match(decoded, expected) and prefixes_match(reading, expected)):
-                decoded, layout, guided = reading, candidate, use_counts is not None
-        if decoded is not None:
+            # the reading which found the written components and prefixes is the one to compare field by field
+            score = 2 * ([c['type'] for c in reading['components']] == want_types) + prefixes_match(reading, expected)
+            if score > best:
+                best, decoded, layout, guided = score, reading, candidate, use_counts is not None
+        if best == 3:
             break
     if decoded is not None and layout == 'whole-prefix' and prefixes_match(decoded, expected):
         deferred.append(
@@ -299,7 +303,8 @@ def check_encode(rule: dict) -> dict:
             raise Violation('encode:out-of-range-emitted', f'"{text[:200]}" -> {wire.hex()[:200]}')
     compare_components(rule, decoded, expected, text, wire, deferred)
     if guided:
-        raise Violation(f'encode:undecodable:{strict_error.kind}', f'{strict_error}: "{text[:300]}" -> {wire[:120].hex()}')
+        kind = strict_error.kind if strict_error else 'reading-differs'
+        raise Violation(f'encode:undecodable:{kind}', f'{strict_error}: "{text[:300]}" -> {wire[:120].hex()}')
     host_bits = rule['afi'] == 1 and any(isinstance(w, tuple) and w[1].split('/')[0] != str(ipaddress.ip_address(w[3])) for _, w in expected)
     if not deferred and not host_bits and want_value is not None and value != want_value:
         # catch-all: the octets must be the ones the refwire builders give for the record
@@ -448,8 +453,6 @@ def _decode_once(case: dict) -> dict:
         raise Violation('decode:well-formed-refused', f'{shown} answered with {outcome}')
     expected_count = 2 if len(data) > len(first) else 1
     if len(delivered) != expected_count or delivered[0] is None:
-        if reference['length'] >= 256:
-            raise Violation('decode:extended-length', f'well-formed NLRI of {reference["length"]} octets delivered as {len(delivered)} NLRIs, first {"INVALID" if delivered and delivered[0] is None else "ok"}')
         raise Violation('decode:well-formed-dropped', f'{shown}: {["INVALID" if d is None else "rule" for d in delivered]} for {expected_count} NLRI(s)')
     got = delivered[0]
 
@@ -520,16 +523,20 @@ def check_decode(case: dict) -> dict:
         return _decode_once(case)
     except Violation as v:
         offsets = [c for c in case['components'] if c.get('offset')]
-        if case['afi'] != 2 or not offsets:
-            raise
+        if case['afi'] != 2 or not offsets or v.signature == 'decode:extended-length':
+            raise  # (the length field is judged before any component is read)
         # differential: the same NLRI with every offset at zero.  When that one is read correctly the cause is the
         # layout of <length, offset, pattern> (RFC 8956 3.1: the pattern holds length - offset bits), whatever the symptom
         plain = dict(case, components=[dict(c, offset=0) if c.get('offset') else c for c in case['components']])
-        try:
-            _decode_once(plain)
-        except Violation:
-            raise v from None
-        except ValueError:
+        for control in (plain, dict(plain, fill=None)):
+            try:
+                _decode_once(control)
+                break
+            except Violation:
+                raise v from None
+            except ValueError:
+                continue  # without the offset the pattern is longer and the NLRI passes 4095 octets: try without the bulk tests
+        else:
             raise v from None
         first, _ = model.wire_nlri(case)
         raise Violation('decode:ipv6-offset-pattern', f'{first[:80].hex()}: correct with offset 0, with the offset: {v.signature}: {v.message[:300]}') from None
